@@ -394,6 +394,8 @@ func genTitle(t *rapid.T, w *world) string {
 		rapid.SampledFrom([]string{"NOTICE", "Notice", "notice", "SWELL", "swell", "v", "VV", "Hint"}),
 		// titles with ASCII punctuation that the marshalled forms have to escape
 		rapid.StringMatching(`[A-Za-z]{1,4}["\\'./_:-][A-Za-z"\\]{0,4}`),
+		// titles with control characters or non-ASCII text (valid UTF-8: RegisterLevel accepts them like any other)
+		rapid.SampledFrom([]string{"a\x01b", "bell\a", "del\x7f", "esc\x1b[31m", "nul\x00", "cr\rlf\n", "\u00fcn\u00efc\u00f6de", "sep\u2028x", "\u00adsoft", "<tag>&"}),
 		// titles padded with a blank (a cheap way to get fixed-width tags)
 		rapid.StringMatching(`( [A-Za-z]{1,5}|[A-Za-z]{1,5} | [A-Za-z]{1,4} |[A-Za-z]{1,3} [A-Za-z]{1,3})`)).Draw(t, "title")
 }
